@@ -6,6 +6,7 @@ INVARIANT LoopIsRunLines
 INVARIANT LatestBinding
 INVARIANT FailKeepsEnv
 INVARIANT HistoryIndependent
+INVARIANT SepIndependent
 PROPERTY EvalFramesCalc
 PROPERTY ExecuteIsPrivate
 PROPERTY SessionIsolation
